@@ -21,6 +21,7 @@ func init() {
 		length := fs.Int("len", 40, "length of random sequences")
 		nkey := fs.Int("nkey", 2, "number of keys")
 		nval := fs.Int("nval", 2, "number of values")
+		enum := fs.Int("enum", 0, "instead of random sequences: every sequence of exactly this many overlay operations on one key (both overlays, key absent / committed)")
 		_ = fs.Parse(args)
 		var seqs [][]ledgerdrv.Op
 		if *in != "" {
@@ -31,6 +32,8 @@ func init() {
 			if err := json.Unmarshal(bz, &seqs); err != nil {
 				return err
 			}
+		} else if *enum > 0 {
+			seqs = ledgerdrv.Enumerate(*enum)
 		} else {
 			seqs = ledgerdrv.Random(*seed, *n, *length, *nkey, *nval)
 		}
